@@ -149,13 +149,13 @@ class Shapes:
         return False
 
     # -------------------------------------------------------------------------------------
-    def sub(self, a, b, lossless: bool, present=None, absent=frozenset(), _seen=None) -> str | None:
+    def sub(self, a, b, lossless: bool, present=None, absent=frozenset(), _seen=None, narrow=None) -> str | None:
         """Is every valid value of `a` (restricted at top level to the given key shape) accepted as a
         valid value of `b` -- and, when `lossless`, without dropping a declared key?  Returns None
         when yes, else a reason.  Coinductive on (a, b) pairs for recursive structures."""
         if _seen is None:
             _seen = set()
-        if a == b and (a[0] != "cls" or (present is None and not absent)):
+        if a == b and (a[0] != "cls" or (present is None and not absent)) and not narrow:
             return None
         if b[0] == "prim" and b[1] in ("any", "object"):
             return None
@@ -170,7 +170,7 @@ class Shapes:
         if b[0] == "union":
             reasons = []
             for m in sorted(b[1], key=repr):
-                r = self.sub(a, m, lossless, present, absent, _seen)
+                r = self.sub(a, m, lossless, present, absent, _seen, narrow)
                 if r is None:
                     return None
                 reasons.append(r)
@@ -207,7 +207,8 @@ class Shapes:
             return self.sub(a[1], b[1], lossless, None, frozenset(), _seen) or \
                 self.sub(a[2], b[2], lossless, None, frozenset(), _seen)
         if ka == "cls" and kb == "cls":
-            key = (a, b, lossless, None if present is None else frozenset(present), frozenset(absent))
+            key = (a, b, lossless, None if present is None else frozenset(present), frozenset(absent),
+                   None if not narrow else tuple(sorted(narrow.items(), key=repr)))
             if key in _seen:
                 return None
             _seen.add(key)
@@ -229,7 +230,8 @@ class Shapes:
                         continue
                     if d.literal is not None and db[w].literal is not None and d.literal != db[w].literal:
                         return f"'{w}' is the literal {d.literal!r} in {a[1]} but {db[w].literal!r} in {b[1]}"
-                    r = self.sub(d.ty, db[w].ty, lossless, None, frozenset(), _seen)
+                    aty = narrow[w] if narrow and w in narrow else d.ty
+                    r = self.sub(aty, db[w].ty, lossless, None, frozenset(), _seen)
                     if r:
                         return f"'{w}': {r}"
                 elif lossless:
@@ -256,6 +258,8 @@ class World:
         self.alt = dict(parent.alt) if parent else {(): alt}
         self.keys = dict(parent.keys) if parent else {}
         self.empty = dict(parent.empty) if parent else {}
+        # universal constraints on the elements of an array value: path -> [(test node, var name, truth)]
+        self.elem = {k: list(v) for k, v in parent.elem.items()} if parent else {}
         self.trace = list(parent.trace) if parent else []
 
     def fork(self):
@@ -272,6 +276,9 @@ class World:
             bits.append(("+" if v else "-") + _pstr(path, k))
         for path, v in sorted(self.empty.items(), key=repr):
             bits.append((_pstr(path) or "value") + ("=[]" if v else "!=[]"))
+        for path, cs in sorted(self.elem.items(), key=repr):
+            for node, var, truth in cs:
+                bits.append(f"all {(_pstr(path) or 'value')}[*]: " + ("" if truth else "not ") + "(" + ast.unparse(node)[:60] + ")")
         return "{" + ", ".join(bits) + "}"
 
 
@@ -574,6 +581,9 @@ class HookEval:
                     return self._fork_bool()
             raise AnalysisError(f"{self.rel}:{node.lineno}: unsupported comparison in {self.name}: "
                                 f"{ast.unparse(node)}")
+        if isinstance(node, ast.Call) and dotted(node.func) in ("any", "all") and len(node.args) == 1 \
+                and isinstance(node.args[0], (ast.GeneratorExp, ast.ListComp)) and len(node.args[0].generators) == 1:
+            return self._quantified(node, w, extra)
         if isinstance(node, ast.Call) and dotted(node.func) == "isinstance" and len(node.args) == 2:
             p = self.path_of(node.args[0], extra)
             if p is None:
@@ -614,6 +624,76 @@ class HookEval:
 
     def _fork_bool(self):
         return BOTH
+
+    def _quantified(self, node, w: World, extra):
+        """any(<test on item> for item in X) / all(...): decided from the set of truth values the test can
+        take on an arbitrary valid element; an undetermined result forks the world and, in the branch where
+        the quantifier fixes every element (any == False, all == True), records a universal element constraint
+        that later restricts the element worlds of comprehension leaves over X."""
+        which = dotted(node.func)
+        comp = node.args[0]
+        g = comp.generators[0]
+        if g.ifs or not isinstance(g.target, ast.Name) or g.is_async:
+            raise AnalysisError(f"{self.rel}:{node.lineno}: unsupported {which}() form in {self.name}")
+        p = self.path_of(g.iter, extra)
+        if p is None:
+            raise AnalysisError(f"{self.rel}:{node.lineno}: {which}() over a non-path in {self.name}")
+        v = self.value_at(w, p)
+        if v[0] == "error":
+            return v
+        if v[0] not in ("seq", "list"):
+            return ("error", f"{which}() iterates a {show(v)} value")
+        emp = w.empty.get(p)
+        if emp is None:
+            def mk(val):
+                def app(x):
+                    x.empty[p] = val
+                return app
+            raise Fork([mk(True), mk(False)])
+        if emp:
+            return which == "all"
+        key = (("quant", id(node)), None)
+        if key in w.keys:
+            return w.keys[key]
+        # possible truth values of the element test over every element alternative x shape
+        poss = set()
+        var = g.target.id
+        for e_alt in sorted(members(v[1]), key=repr):
+            root = ("#" + var,)
+            start = World(None, w)
+            start.alt = {root: e_alt}
+            start.keys, start.empty, start.elem = {}, {}, {}
+            stack = [start]
+            guard = 0
+            while stack:
+                w2 = stack.pop()
+                guard += 1
+                if guard > 2000:
+                    raise AnalysisError(f"{self.rel}: world explosion in {which}() of {self.name}")
+                try:
+                    r = self._decide(comp.elt, w2, {**(extra or {}), var: root})
+                except Fork as f:
+                    for app in f.options:
+                        w3 = w2.fork()
+                        app(w3)
+                        stack.append(w3)
+                    continue
+                if isinstance(r, tuple):
+                    return r
+                poss.add(bool(r))
+        if poss == {True}:
+            return True           # non-empty list, every element satisfies the test
+        if poss == {False}:
+            return False
+        decided_all = which == "all"     # the outcome that pins every element
+
+        def mk2(val):
+            def app(x):
+                x.keys[key] = val
+                if val == decided_all:
+                    x.elem.setdefault(p, []).append((comp.elt, var, decided_all))
+            return app
+        raise Fork([mk2(True), mk2(False)])
 
     def _fork_any(self, w, p, v):
         """A value of type Any (or a union not yet split): both outcomes are possible."""
